@@ -46,6 +46,7 @@ pub fn gen_id(r: &mut Rng) -> String {
         0 => String::new(),
         1 => "ECU1".into(),
         2 => "APP".into(),
+        3 if r.chance(1, 3) => "DLT\u{1}".into(), // the storage-header pattern is a legal id
         _ => {
             let target = r.range(1, 4) as usize;
             let mut s = String::new();
@@ -148,7 +149,7 @@ pub fn gen_value(r: &mut Rng, kind: &TypeInfoKind, max_data: usize) -> Value {
         TypeInfoKind::StringType => Value::StringVal(gen_text(r, max_data.min(65534), 12)),
         TypeInfoKind::Raw => {
             let n = r.size(12, max_data.min(65535));
-            Value::Raw(r.bytes(n))
+            Value::Raw(r.bytes_magic(n))
         }
     }
 }
@@ -379,12 +380,12 @@ pub fn gen_msg(r: &mut Rng, o: &GenOpts) -> Message {
         PKind::NonVerbose => {
             let n = budget.saturating_sub(4);
             let n = if exact { n } else { r.size(12, n) };
-            PayloadContent::NonVerbose(r.special64() as u32, r.bytes(n))
+            PayloadContent::NonVerbose(r.special64() as u32, r.bytes_magic(n))
         }
         PKind::Control => {
             let n = budget.saturating_sub(1);
             let n = if exact { n } else { r.size(12, n) };
-            PayloadContent::ControlMsg(refcodec::service_id_of(r.u8()), r.bytes(n))
+            PayloadContent::ControlMsg(refcodec::service_id_of(r.u8()), r.bytes_magic(n))
         }
         PKind::NetworkTrace => {
             let mut slices = vec![];
@@ -401,7 +402,7 @@ pub fn gen_msg(r: &mut Rng, o: &GenOpts) -> Message {
                 }
                 let n = r.size(12, if want > 40 { (left - 6).min(8) } else { left - 6 });
                 used += 6 + n;
-                slices.push(r.bytes(n));
+                slices.push(r.bytes_magic(n));
             }
             if exact && slices.len() < 255 && budget - used >= 6 {
                 let n = budget - used - 6;
